@@ -206,7 +206,8 @@ example : isValueError (genModel ["d1"] wOk .ts []) = true := by decide +kernel
 
 open Mxl.C07Expr in
 /-- **Printed text has the expression's value — every expression, every environment** (numbers, names, unary minus,
-    `+ - * /`): the tokens a printer writes that parenthesises an operand iff it binds less tightly than its position
+    `+ - * /`, and Python's `%` written by the repository's `_print_Mod` / `_mod_operands`: `(a % b)` with every operand
+    that is not a single name or number in parentheses of its own): the tokens a printer writes that parenthesises an operand iff it binds less tightly than its position
     requires (the policy of sympy's code printers; right operands strictly) are read by a left-associative
     recursive-descent reader (sums of products of signed atoms; unary minus binds tighter than `*` `/`) as exactly the
     value of the expression — also when there is none (unknown name, division by zero). -/
@@ -226,7 +227,8 @@ theorem C07_expr_reader_is_parser (env : C07Expr.Env) (ts : List C07Expr.Tok) :
   evalToks_eq_parse env ts
 
 open Mxl.C07Expr in
-/-- the policy on small trees: `(x + y)*z`, `x - (y - z)`, `x/(y*z)`, `-(x + y)`, `-x*y`, `x*-y`, `x - y - z` -/
+/-- the policy on small trees: `(x + y)*z`, `x - (y - z)`, `x/(y*z)`, `-(x + y)`, `-x*y`, `x*-y`, `x - y - z`, and with
+    a remainder: `((x + y) % z)`, `y*((x % z))` (sympy adds the outer pair around a factor), `y + (x % z)` -/
 example :
     (C07Expr.E.mul (.add (.var "x") (.var "y")) (.var "z")).print = [.lp, .id "x", .plus, .id "y", .rp, .star, .id "z"]
     ∧ (C07Expr.E.sub (.var "x") (.sub (.var "y") (.var "z"))).print = [.id "x", .minus, .lp, .id "y", .minus, .id "z", .rp]
@@ -234,7 +236,13 @@ example :
     ∧ (C07Expr.E.neg (.add (.var "x") (.var "y"))).print = [.minus, .lp, .id "x", .plus, .id "y", .rp]
     ∧ (C07Expr.E.mul (.neg (.var "x")) (.var "y")).print = [.minus, .id "x", .star, .id "y"]
     ∧ (C07Expr.E.mul (.var "x") (.neg (.var "y"))).print = [.id "x", .star, .minus, .id "y"]
-    ∧ (C07Expr.E.sub (.sub (.var "x") (.var "y")) (.var "z")).print = [.id "x", .minus, .id "y", .minus, .id "z"] := by
+    ∧ (C07Expr.E.sub (.sub (.var "x") (.var "y")) (.var "z")).print = [.id "x", .minus, .id "y", .minus, .id "z"]
+    ∧ (C07Expr.E.mod (.add (.var "x") (.var "y")) (.var "z")).print
+        = [.lp, .lp, .id "x", .plus, .id "y", .rp, .pct, .id "z", .rp]
+    ∧ (C07Expr.E.mul (.var "y") (.mod (.var "x") (.var "z"))).print
+        = [.id "y", .star, .lp, .lp, .id "x", .pct, .id "z", .rp, .rp]
+    ∧ (C07Expr.E.add (.var "y") (.mod (.var "x") (.var "z"))).print
+        = [.id "y", .plus, .lp, .id "x", .pct, .id "z", .rp] := by
   simp [C07Expr.E.print, C07Expr.pp_def, C07Expr.E.prec]
 
 end Mxl.C07
